@@ -215,6 +215,9 @@ func vfC17GenQuery(r *vfRand, depth int, names []string) (query.Q, string, strin
 		set := map[string]bool{}
 		var ids []uint64
 		n := 1 + r.Intn(3)
+		if r.Chance(25) { // (almost) every name: simplifyMultiRepo's Const(true) case
+			n = 3 * len(names)
+		}
 		for i := 0; i < n; i++ {
 			nm := r.Pick(names)
 			if !set[nm] {
@@ -348,6 +351,13 @@ func TestVerifC17(t *testing.T) {
 					c.FileTombstones = map[string]struct{}{}
 					for j := 0; j < 1+r.Intn(2); j++ {
 						c.FileTombstones[r.Pick(vfC17Files)] = struct{}{}
+					}
+				} else if r.Chance(20) { // every path of this repository tombstoned: alive, but nothing to find
+					c.FileTombstones = map[string]struct{}{}
+					for _, d := range tpl.docs {
+						if d.repo == i {
+							c.FileTombstones[vfC17Files[d.file]] = struct{}{}
+						}
 					}
 				}
 				if r.Chance(15) {
